@@ -89,7 +89,7 @@ func main() {
 	}
 	tNames := allSeqs(tset, 2)
 	tNames = append(tNames, tNames...)
-	longNames, _ := dedupe(longValueNames())
+	longNames, _ := dedupe(longValueNames(true))
 
 	var st pairStats
 	var us uriStats
@@ -126,7 +126,9 @@ func main() {
 	L := buildUniverse("long-values", 2, longNames, false)
 	run("pairs (long values, eq only)", func() (int64, bool) {
 		before := st.pairs.Load()
+		_, ok0 := enum.Range(int64(len(longNames)), deadline, func(i int64) { checkWire(col, 2<<60|i, longNames[i]) })
 		_, ok := L.pairs(col, &st, nil, deadline, true)
+		ok = ok && ok0
 		return st.pairs.Load() - before, ok
 	})
 
